@@ -80,6 +80,7 @@ type Term struct {
 	Vars []*Term
 	Pats [][]*Term
 	QID  string
+	Wit  []*Term // witness hints for an existential goal (one per bound variable)
 	// string literal payload
 	Lit string
 }
@@ -526,6 +527,10 @@ func (t *Term) Subst(m map[string]*Term) *Term {
 		}
 		nt := *t
 		nt.Args = []*Term{t.Args[0].Subst(m2)}
+		nt.Wit = nil
+		for _, wt := range t.Wit {
+			nt.Wit = append(nt.Wit, wt.Subst(m))
+		}
 		nt.Pats = nil
 		for _, p := range t.Pats {
 			var np []*Term
